@@ -12,6 +12,8 @@ import CruxVerif.Spec.Codec
   value print (type directed; the Rust side prints the same from serde's data model):
            `()` `true` `false` `u8:255` `i64:-5` `f32:<bits>` `c:<code point>` `s:<hex utf8>` `b:<hex>` `none` `(some v)`
            `[v…]` (seq; map entries are `(k v)`) `(v…)` (tuple, array, every struct) `(#Variant v…)`
+         or `typegen <app> (enum <name> <declared variants> <registered on its own 0|1>)` (out: `typegen-refused` |
+         `typegen-accepted`)
   out  : `wrote <hex> <value|unreadable>` | `ser-error` | `not-in-schema` | `accepted <value> <hex> <0|1>` | `rejected`
          (implementation only: `unbuildable <why>` — Deserialize refuses what Serialize printed; `unstable <value>` —
          the value rebuilt through Deserialize prints differently) -/
@@ -285,7 +287,19 @@ def parseObs (c : Case) (line : String) : Option (Sum String Obs) :=
   | some (.atom "unstable" :: _) => some (.inl (lower c.root ++ "-printed-value-changes-when-rebuilt"))
   | _ => none
 
+/-! `typegen <app> (enum <name> <declared variants> <registered alone 0|1>)` -/
+
+def parseTypegen (line : String) : Option (String × Nat × Bool) :=
+  match parseLine line with
+  | some [.atom "typegen", .atom app, .list false [.atom "enum", .atom _, .atom n, .atom r]] => do
+    let n ← n.toNat?
+    if r == "1" then pure (app, n, true) else if r == "0" then pure (app, n, false) else none
+  | _ => none
+
 def model (line : String) : String :=
+  match parseTypegen line with
+  | some (_, n, r) => if typegenRefuses n r then "typegen-refused" else "typegen-accepted"
+  | none =>
   match parseCase line with
   | some c => showObs c (run c)
   | none => "bad-case"
@@ -293,6 +307,13 @@ def model (line : String) : String :=
 def oracle (line : String) : String :=
   match line.splitOn "\t" with
   | [cl, o] =>
+    match parseTypegen cl with
+    | some (app, n, r) =>
+      if o == "typegen-refused" then (if typegenOk n r true then "ok" else "reject " ++ lower app ++ "-typegen")
+      else if o == "typegen-accepted" then
+        (if typegenOk n r false then "ok" else "reject " ++ lower app ++ "-typegen-accepted-incomplete-enum")
+      else "reject " ++ lower app ++ "-unparseable-observation"
+    | none =>
     match parseCase cl with
     | some c =>
       match parseObs c o with
